@@ -44,6 +44,12 @@ class ClockModel:
         # an event at exactly the enclosing deadline ties with the interrupt: optional
         self.exp.setdefault(act, []).append((idx, kind, t, t == H))
 
+    def deadline(self, entry, notif):
+        """Trigger time of an until() notification entered at `entry` (INF = never)."""
+        if notif[0] != 'delay':
+            raise InvalidCase('C01 guards are delays')
+        return entry + num(notif[1])
+
     def activity(self, a, start, H):
         """Returns completion time (NEVER if it never completes on its own before/at H)."""
         name = a['name']
@@ -79,9 +85,7 @@ class ClockModel:
             elif op in ('scope', 'until'):
                 entry = now
                 if op == 'until':
-                    if s['notif'][0] != 'delay':
-                        raise InvalidCase('C01 guards are delays')
-                    D = entry + num(s['notif'][1])
+                    D = self.deadline(entry, s['notif'])
                     self.feat.add('guard')
                 else:
                     D = INF
